@@ -347,6 +347,30 @@ def job_row(i, tier, seed):
                 R2 = alu.write_acc_nosat(R2, acc, res)
                 return {k: (R2[k] if R2[k] is R[k] else z3.If(R['fn'] == 0, R2[k], R[k])) for k in R}
             spec = over_acc('Ax', F(0), f)
+    elif (nm == 'movs' and types == ('Register', 'Ab')) or nm == 'movsi' or (nm == 'exp' and types in (('Register',), ('Register', 'Ax'))):
+        # register operand forms, for the plain 16-bit sources (operand.h Register order: r0..r5, r7, y0, accumulator halves,
+        # sv; RnOld: r0..r5, r7, y0) and - exp only - the whole accumulators a0 / a1; p, the status words, pc/sp/lc/ext: C01
+        REG = {0: R['r[0]'], 1: R['r[1]'], 2: R['r[2]'], 3: R['r[3]'], 4: R['r[4]'], 5: R['r[5]'], 6: R['r[7]'], 7: R['y[0]'],
+               16: z3.Extract(31, 16, R['b[0]']), 17: z3.Extract(31, 16, R['b[1]']), 18: z3.Extract(15, 0, R['b[0]']), 19: z3.Extract(15, 0, R['b[1]']),
+               26: z3.Extract(15, 0, R['a[0]']), 27: z3.Extract(15, 0, R['a[1]']), 28: z3.Extract(31, 16, R['a[0]']), 29: z3.Extract(31, 16, R['a[1]']), 31: R['sv']}
+        idx = F(0)
+        keys = [k_ for k_ in REG if nm != 'movsi' or k_ < 8]
+        val = None
+        for k_ in keys:
+            val = REG[k_] if val is None else z3.If(z3.ZeroExt(16 - idx.size(), idx) == k_, REG[k_], val)
+        allowed = [z3.ZeroExt(16 - idx.size(), idx) == k_ for k_ in keys]
+        if nm == 'exp':
+            wide = z3.If(idx == 24, R['a[0]'], z3.If(idx == 25, R['a[1]'], z3.SignExt(32, z3.Concat(val, z3.BitVecVal(0, 16)))))
+            extra = [z3.Or(idx == 24, idx == 25, *allowed)]
+            spec = dict(R)
+            spec['sv'] = exp_model(wide)
+            if len(types) == 2:
+                sx = z3.SignExt(48, spec['sv'])
+                spec = alu.acc_store(lambda n_: {**spec, alu.ACC[n_]: sx}, F(1), forms.ENUMS['Ax'], R)
+        else:
+            sv = R['sv'] if nm == 'movs' else z3.SignExt(11, F(2))
+            extra = [z3.Or(*allowed), small_sv(sv)]
+            spec = over_acc('Ab', F(1), lambda acc: shift_model(R, z3.SignExt(48, val), sv, acc))
     elif nm == 'mov_p1_to':
         spec = over_acc('Ab', F(0), lambda acc: alu.write_acc_sat(R, acc, ab.PB[1]))
     elif nm in ('clrp0', 'clrp1', 'clrp'):
@@ -726,10 +750,10 @@ def run(tier, seed):
                        'ProductSum: result, z/m/e/n flags and saturation are checked against the model; its combined carry/overflow flags are covered by C01 only',
                        'compositional cut: inside ProductSum and the instruction rows, ProductToBus40 is a fresh sign-extended 40-bit value per unit (proved to be read on the pre-state product registers) and DoMultiplication writes fresh product words (proved to be launched with the unit/sign selection/factors the form demands); both functions are proved against the exact-product model as kernels, half-word mode by exhaustive case split',
                        'ProductWiring[row] (app, mov_sv_app, every mma* form, sqr*, mul/mul_y0/msu/msusu/mac1 with memory or register operands): event-level - ProductSum is called once, on the pre-state product registers (mov_sv_app: after sv was loaded from the word read), with the base / add-sub / align configuration and destination the form declares; each multiplier is then launched exactly once with the declared sign selection and with the factors the form routes to it (pre-state x/y, swapped x, the n-th memory word read, the second word, halves of the source accumulator); nothing after the sum touches its accumulator or the flags. What a form declares is read from the frozen reference decoder.h (same name and opcode pattern). Address generation (RnAndModify / OffsetAddress) returns fresh values there (C10 decides it); the value of a Register source operand in mul_y0(Register) is left to C01',
-                       'movs [Rn], exp [Rn] (2 forms), norm: the stepper is abstracted to a fresh pre-modified value (C10), the operand is the data word at the address read; accumulators, flags and sv are compared against the shifter / exponent / normalisation-step model', 'movs(Register), movsi, exp(Register), cbs, the vtr forms: covered by C01 rather than this model']
+                       'movs [Rn], exp [Rn] (2 forms), norm: the stepper is abstracted to a fresh pre-modified value (C10), the operand is the data word at the address read; accumulators, flags and sv are compared against the shifter / exponent / normalisation-step model', 'movs <register>, movsi, exp <register> (2 forms): modelled for the plain 16-bit register sources (and a0 / a1 for exp); p, status-word, pc/sp/lc/ext sources, cbs and the vtr forms: covered by C01 rather than this model']
     ck.bounds += ['no bound on values; Exp loop unwinding 60 (39 iterations needed, bound checked)', 'quick tier: ProductSum kernel on destinations a0 and b1 (thorough: all four)']
     ck.stubs += E.tabulated
-    fam = ('mul_y0_r6', 'mul_y0', 'mpyi', 'mac_x1to0', 'shfc', 'shfi', 'movs_r6_to', 'movs', 'moda4', 'moda3', 'exp', 'exp_r6', 'mov_p1_to', 'clrp0', 'clrp1', 'clrp', 'norm')
+    fam = ('mul_y0_r6', 'mul_y0', 'mpyi', 'mac_x1to0', 'shfc', 'shfi', 'movs_r6_to', 'movs', 'moda4', 'moda3', 'exp', 'exp_r6', 'mov_p1_to', 'clrp0', 'clrp1', 'clrp', 'norm', 'movsi')
     rows = [r['i'] for r in E.rows if r['name'] in fam]
     kj = [(job_mul, (u, tier, seed)) for u in (0, 1)] + [(job_prodsum, (b_, tier, seed)) for b_ in range(4)] + [(job_shift, (an, tier, seed)) for an in REGN]
     pw = [r['i'] for r in E.rows if r['name'] in PW_SUM + PW_MUL]
